@@ -3,8 +3,16 @@ import numpy as np
 import scipy.linalg
 from harness.props._common import run_eval, replay_eval
 from harness import monitors
+from harness.coqcases import run_bool_cases
+from harness.flatten import coq_list
 
 PROPS_FILE = "P_C02mx"
+PROPS_FILES = ["P_C02mx", "P_C02qr"]
+COQ_TARGETS = ["TwoLevel"]
+QHEADER = ("From Coq Require Import List Bool Arith NArith.\nFrom QV Require Import Sem SparseSim TwoLevel CaseLib.\nImport ListNotations.\n"
+           "Definition mg_eqb (g h : mg) : bool := match g, h with\n"
+           " | MGX a, MGX b => Nat.eqb a b | MGCX a b, MGCX c d => Nat.eqb a c && Nat.eqb b d\n"
+           " | MGU i cs t, MGU j ds u => Nat.eqb i j && list_eqb Nat.eqb cs ds && Nat.eqb t u | _, _ => false end.\n")
 RULE = ("contract monitors: on every call of unitary._compute_gates and scipy.linalg.cossin made while synthesising structured "
         "(identity, diagonal, permutation, tensor, block-diagonal, real orthogonal, Hadamard, -I) and Haar unitaries, n = 2..4/5, "
         "the premises of the demultiplexing theorem (V unitary, |d| = 1, U1 U2^dagger = V D^2 V^dagger, W = D V^dagger U2) and the "
@@ -13,7 +21,9 @@ RULE = ("contract monitors: on every call of unitary._compute_gates and scipy.li
 ASSUMPTIONS = ["the recursive wiring of build_unitary/_qsd/_csd (which block goes on which qubits) is evaluated, not proved; the multiplexed "
                "rotations are C13's theorems (RY with CZ, trailing CZ absorbed by the sign flip A.1)",
                "Qiskit's _apply_a2, UCRZGate, UCRYGate, UCGate, UnitaryGate synthesis are outside the repository: contracts only",
-               "QR decomposition: evaluated only"]
+               "QR scheme: the blocks are proved two-level operators (C02_qr_block) on the path the code took (checked inside Coq); that the Givens "
+               "factors multiply to the input matrix is a numpy product compared at 1e-9, not a theorem; Qiskit's MCMT / MCX gates are taken as the "
+               "ideal fully controlled gates (the mcmt operator is compared with the controlled 2x2 gate numerically)"]
 TRUSTED = ["harness/monitors.py"]
 
 
@@ -72,8 +82,125 @@ def contract_monitors(ctx):
                                  {"n": n, "family": fam, "decomposition": dec})
 
 
+def _tau(n, m, p, b):
+    """python mirror of TwoLevel.tau (only used to propose col/row; Coq's path_ok decides)"""
+    mask = ((1 << n) - 1) & ~(1 << m)
+    return b ^ (1 << m) if (b & mask) == (p & mask) else b
+
+
+def qr_blocks(ctx):
+    """QR scheme: every block of the circuit (moves ; fully controlled 2x2 gate ; moves undone) is compared inside Coq with
+    TwoLevel.blockg and its path is checked by TwoLevel.path_ok, so that C02_qr_block makes it the two-level operator on (col, row);
+    the product of the two-level matrices is then compared with the input matrix."""
+    from qclib.unitary import unitary
+    from qiskit.quantum_info import Operator
+    from harness.flatten import flatten
+    sizes = [(2, 4), (3, 3), (4, 1)] if ctx.quick else [(2, 8), (3, 6), (4, 3), (5, 1)]
+    lines, cases = [], []
+    for n, reps in sizes:
+        fams = [f for f in families(ctx.rng, n) if not np.any(np.abs(f[1]) < 1e-9)]
+        for rep in range(reps):
+            if rep < len(fams):
+                fam, U = fams[rep]
+            else:
+                N_ = 2 ** n
+                fam, U = "haar", np.linalg.qr(ctx.rng.normal(size=(N_, N_)) + 1j * ctx.rng.normal(size=(N_, N_)))[0]
+            case0 = {"decomposition": "qr", "n": n, "family": fam,
+                     "matrix": [[[float(z.real).hex(), float(z.imag).hex()] for z in r] for r in np.asarray(U, complex)]}
+            try:
+                c = unitary(U, "qr")
+            except Exception as ex:
+                ctx.note(f"unitary(qr) raised {type(ex).__name__} on {fam} n={n}")
+                continue
+            ctx.count("corr:qr:" + fam, key=("qrb", n, np.asarray(U).tobytes()[:96]), nontrivial=True,
+                      sample={"n": n, "family": fam, "instructions": len(c.data)} if n == 3 and rep == 0 else None)
+            total = np.eye(2 ** n, dtype=complex)
+            block, seen_mcmt, bad = [], False, None
+            blocks = []
+            for inst in c.data:
+                block.append(inst)
+                if inst.operation.name == "mcmt":
+                    seen_mcmt = True
+                elif seen_mcmt and inst.operation.name != "x":
+                    blocks.append(block)
+                    block, seen_mcmt = [], False
+            if block:
+                bad = "instructions left over after the last block"
+            for bi, blk in enumerate(blocks):
+                if bad:
+                    break
+                L, zeros_cu, d, M, gates, phase = [], set(), None, None, [], "prep"
+                for inst in blk:
+                    op = inst.operation
+                    qs = [c.find_bit(q).index for q in inst.qubits]
+                    if op.name == "x":
+                        gates.append(f"MGX {qs[0]}")
+                        if phase == "prep":
+                            zeros_cu.add(qs[0])
+                    elif op.name == "mcmt":
+                        phase = "after"
+                        d = qs[-1]
+                        W = Operator(op).data
+                        h = 2 ** (n - 1)
+                        M = np.array([[W[h - 1 + r * h, h - 1 + cc * h] for cc in (0, 1)] for r in (0, 1)])
+                        ref = np.eye(2 ** n, dtype=complex)
+                        for r in (0, 1):
+                            for cc in (0, 1):
+                                ref[h - 1 + r * h, h - 1 + cc * h] = M[r, cc]
+                        if not np.allclose(W, ref, atol=1e-10):
+                            bad = "the mcmt instruction is not a fully controlled one-qubit gate"
+                        gates.append(f"MGU 1 {coq_list([str(q) for q in qs[:-1]])} {qs[-1]}")
+                    else:
+                        fl, _ = flatten(op.definition, qs)
+                        zs, tgt = set(), None
+                        for name, q2, o2 in fl:
+                            if name == "x":
+                                gates.append(f"MGX {q2[0]}")
+                                if tgt is None:
+                                    zs.add(q2[0])
+                            elif name in ("cx", "ccx", "mcx") and getattr(o2, "ctrl_state", (1 << (len(q2) - 1)) - 1) == (1 << (len(q2) - 1)) - 1:
+                                if tgt is not None and phase == "prep":
+                                    bad = "a move holds more than one controlled X"
+                                gates.append(f"MGU 0 {coq_list([str(q) for q in q2[:-1]])} {q2[-1]}")
+                                if phase == "prep":
+                                    tgt = q2[-1]
+                            else:
+                                bad = f"unexpected gate {name} inside a move"
+                        if phase == "prep":
+                            if tgt is None:
+                                if fl:
+                                    bad = "a move without a controlled X"
+                                continue
+                            pm = sum(1 << q for q in range(n) if q != tgt and q not in zs)
+                            L.append((tgt, pm))
+                if bad or d is None:
+                    bad = bad or "block without a controlled gate"
+                    break
+                p = sum(1 << q for q in range(n) if q != d and q not in zeros_cu)
+                col, row = p, p | (1 << d)
+                for m_, p_ in reversed(L):
+                    col, row = _tau(n, m_, p_, col), _tau(n, m_, p_, row)
+                Lc = coq_list([f"({m_}, {p_}%N)" for m_, p_ in L])
+                lines.append(f"(list_eqb mg_eqb (blockg {n} {Lc} {d} {p}%N) {coq_list(gates)}) && path_ok {n} {Lc} {d} {p}%N {col}%N {row}%N")
+                cases.append(dict(case0, block=bi, col=col, row=row))
+                T = np.eye(2 ** n, dtype=complex)
+                T[col, col], T[col, row], T[row, col], T[row, row] = M[0, 0], M[0, 1], M[1, 0], M[1, 1]
+                total = T @ total
+            ctx.monitor("qr_two_level_product")
+            if bad:
+                ctx.mismatch("C02 QR correspondence: " + bad, case0)
+            elif np.abs(total - np.asarray(U, complex)).max() > 1e-9:
+                ctx.mismatch(f"C02 QR tie: the product of the two-level operators of the blocks differs from the matrix by {np.abs(total - U).max():.2e}", case0)
+
+    def on_fail(cs):
+        ctx.mismatch("C02 QR correspondence: a block of the circuit differs from TwoLevel.blockg, or its path fails TwoLevel.path_ok", cs)
+    ctx.monitor("qr_blocks_checked_in_coq", len(lines))
+    run_bool_cases(ctx, "c02_qr", QHEADER, lines, cases, on_fail, shard=60)
+
+
 def run(ctx):
     contract_monitors(ctx)
+    qr_blocks(ctx)
     run_eval(ctx, "C02")
 
 
@@ -86,7 +213,7 @@ def replay(ctx, case):
 
 
 MANIFEST = dict(
-    text="Proof (MODULAR/PARTIAL): the demultiplexing identity U1(+)U2 = (V(+)V)(D(+)D^-1)(W(+)W) under the premises V unitary, U1 U2^-1 = V D^2 V^-1, W = D V^-1 U2 (C02_demux, any field, any dimension); the multiplexed rotations used by the synthesis are C13's theorems. Tie: on every _compute_gates and scipy cossin call made while synthesising structured (identity, diagonal, permutation, tensor, block, orthogonal, Hadamard, -I) and Haar unitaries the premises are checked numerically at 1e-8. The recursive wiring, A.1/A.2, isometry mode and QR are evaluated: operator vs matrix for every option, n<=4/6.",
+    text="Proof (MODULAR/PARTIAL): the demultiplexing identity U1(+)U2 = (V(+)V)(D(+)D^-1)(W(+)W) under the premises V unitary, U1 U2^-1 = V D^2 V^-1, W = D V^-1 U2 (C02_demux, any field, any dimension); the multiplexed rotations used by the synthesis are C13's theorems. Tie: on every _compute_gates and scipy cossin call made while synthesising structured (identity, diagonal, permutation, tensor, block, orthogonal, Hadamard, -I) and Haar unitaries the premises are checked numerically at 1e-8. QR scheme: every block of the circuit (Gray-code moves = fully controlled X gates with zero-controls, the fully controlled 2x2 gate, the moves undone) is the two-level operator on its two basis states for every register width, every path accepted by the checker path_ok and every matrix (C02_qr_block; C02_qr_move: a move is a transposition of basis states); tie: each block of the circuits built for dense unitaries (n = 2..4/5) is compared inside Coq with TwoLevel.blockg and its path is checked by path_ok, and the product of the resulting two-level matrices is compared with the input. The recursive wiring, A.1/A.2 and isometry mode are evaluated: operator vs matrix for every option, n<=4/6.",
     note="Modelled, not verified: scipy cossin / numpy eig, Qiskit's _apply_a2, UCRZGate, UCGate, UnitaryGate synthesis; wiring of build_unitary is evaluated only.",
-    technique='Coq/mathcomp proof (block matrices over any field) + runtime contract monitors + numpy operator comparison',
+    technique='Coq/mathcomp proof (block matrices over any field) + Coq proof of the QR blocks (conjugated two-level operators, checker-validated paths) + gate-list correspondence (vm_compute) + runtime contract monitors + numpy operator comparison',
     design_ref='DESIGN.md section 4, C02')
